@@ -255,6 +255,204 @@ h!(c16_notify_first_write_wins, {
     std::mem::forget((a, b));
 });
 
+// ---- one-step harnesses over the state-passing variant (Store::verif_new_st): the waiter table `obligations` is owned by
+// the harness between runs of the REAL command loop, so (a) the table the loop leaves behind after parking is observable and
+// (b) a step can start from a table with parked waiters built directly (real oneshot channels), i.e. the wake-up clauses are
+// decided as: parking step (table after = exactly the shape the wake-up step starts from) + wake-up step from that shape.
+type Obl = HashMap<Key, VecDeque<oneshot::Sender<StoreResult<Value>>>>;
+macro_rules! mk_st {
+    ($a:ident, $task:ident, $obl:ident) => {
+        let (mut $a, mut $task, mut $obl) = match Store::verif_new_st("x") {
+            Ok(x) => x,
+            Err(_) => panic!("store did not open"),
+        };
+    };
+}
+fn obl_count(o: &Obl, k: u8) -> usize {
+    // number of waiters parked under key [k] (0 if the key has no entry)
+    let mut i = 0;
+    while i < o.n {
+        if let Some((kk, q)) = &o.items[i] {
+            if kk.len() == 1 && kk[0] == k {
+                return q.len();
+            }
+        }
+        i += 1;
+    }
+    0
+}
+macro_rules! rx_value {
+    ($r:expr, $v:expr, $msg:expr) => {{
+        let mut r = std::pin::pin!($r);
+        match poll(r.as_mut()) {
+            Some(Ok(Ok(v))) => {
+                assert!(v.len() == 1 && v[0] == $v, $msg);
+                std::mem::forget(v);
+            }
+            _ => assert!(false, $msg),
+        }
+    }};
+}
+macro_rules! rx_pending {
+    ($r:expr) => {{
+        let mut r = std::pin::pin!($r);
+        let x = poll(r.as_mut());
+        let p = x.is_none();
+        std::mem::forget(x);
+        p
+    }};
+}
+// parking step: a notify_read of a missing key leaves exactly one waiter under exactly that key, nothing else
+h!(c16_st_park_one, {
+    mk_st!(a, task, obl);
+    let w = a.notify_read(vec![1]);
+    let mut w = std::pin::pin!(w);
+    assert!(is_pending!(w));
+    task(&mut obl);
+    assert!(is_pending!(w), "C16 notify_read completed without a value");
+    assert!(obl.len() == 1 && obl_count(&obl, 1) == 1, "C16 waiter not parked under its key (lost wake-up follows)");
+    std::mem::forget((a, obl));
+});
+// NOT IN THE SPEC (measured: no result in 900 s, like every run in which a no-value answer meets a non-empty table):
+// parking step from a table that already holds a waiter for that key: appended BEHIND it (one command)
+h!(c16_st_park_behind, {
+    mk_st!(a, task, obl);
+    let (s0, r0) = oneshot::channel::<StoreResult<Value>>();
+    let mut q = VecDeque::new();
+    q.push_back(s0);
+    obl.insert(vec![1], q);
+    let w = a.notify_read(vec![1]);
+    let mut w = std::pin::pin!(w);
+    task(&mut obl);
+    assert!(is_pending!(w), "C16 notify_read completed without a value");
+    assert!(rx_pending!(r0), "C16 parked waiter disturbed by another notify_read");
+    assert!(obl.len() == 1 && obl_count(&obl, 1) == 2, "C16 second waiter not parked under its key");
+    std::mem::forget((a, obl));
+});
+// NOT IN THE SPEC (measured: timeout at 900 s): parking step from a table that holds a waiter for ANOTHER key: separate entry, the other one untouched (one command)
+h!(c16_st_park_other_key, {
+    mk_st!(a, task, obl);
+    let (s0, r0) = oneshot::channel::<StoreResult<Value>>();
+    let mut q = VecDeque::new();
+    q.push_back(s0);
+    obl.insert(vec![1], q);
+    let w = a.notify_read(vec![2]);
+    let mut w = std::pin::pin!(w);
+    task(&mut obl);
+    assert!(is_pending!(w), "C16 notify_read completed without a value");
+    assert!(rx_pending!(r0), "C16 parked waiter disturbed by another notify_read");
+    assert!(obl.len() == 2 && obl_count(&obl, 1) == 1 && obl_count(&obl, 2) == 1, "C16 waiter not parked under its own key");
+    std::mem::forget((a, obl));
+});
+// invariant "a key with a value has no parked waiters": a notify_read of an existing key is answered and NOT parked
+h!(c16_st_existing_not_parked, {
+    mk_st!(a, task, obl);
+    let v1: u8 = vwit::any_u8();
+    issue_write!(a, 1, v1);
+    task(&mut obl);
+    let w = a.notify_read(vec![1]);
+    let mut w = std::pin::pin!(w);
+    task(&mut obl);
+    expect_value!(w, v1, "C16 notify_read on an existing key did not complete with its value");
+    assert!(obl.len() == 0, "C16 waiter parked although the key has a value");
+    vwit::cover!(v1 > 3);
+    std::mem::forget((a, obl));
+});
+// wake-up step: two waiters parked under key 1, one under key 2; Write(1, v) completes both key-1 waiters with v, removes
+// the entry, leaves the key-2 waiter parked and pending
+h!(c16_st_wake_two, {
+    mk_st!(a, task, obl);
+    let (s1, r1) = oneshot::channel::<StoreResult<Value>>();
+    let (s2, r2) = oneshot::channel::<StoreResult<Value>>();
+    let (s3, r3) = oneshot::channel::<StoreResult<Value>>();
+    let mut q1 = VecDeque::new();
+    q1.push_back(s1);
+    q1.push_back(s2);
+    let mut q2 = VecDeque::new();
+    q2.push_back(s3);
+    obl.insert(vec![1], q1);
+    obl.insert(vec![2], q2);
+    let v: u8 = vwit::any_u8();
+    issue_write!(a, 1, v);
+    task(&mut obl);
+    rx_value!(r1, v, "C16 lost wake-up: first parked waiter not completed by the write to its key (or wrong value)");
+    rx_value!(r2, v, "C16 lost wake-up: second parked waiter not completed by the write to its key (or wrong value)");
+    assert!(rx_pending!(r3), "C16 waiter woken by a write to another key");
+    assert!(obl.len() == 1 && obl_count(&obl, 1) == 0 && obl_count(&obl, 2) == 1, "C16 waiter table after a write: key entry not cleared / other key disturbed");
+    vwit::cover!(v > 3);
+    std::mem::forget((a, obl));
+});
+// wake-up step, then the value is there: one parked waiter, two queued writes to its key: completes with the FIRST value,
+// and a read afterwards (queued behind them) returns the second
+h!(c16_st_wake_first_write, {
+    mk_st!(a, task, obl);
+    let (s1, r1) = oneshot::channel::<StoreResult<Value>>();
+    let mut q1 = VecDeque::new();
+    q1.push_back(s1);
+    obl.insert(vec![1], q1);
+    let v: u8 = vwit::any_u8();
+    let v2: u8 = vwit::any_u8();
+    issue_write!(a, 1, v);
+    issue_write!(a, 1, v2);
+    task(&mut obl);
+    rx_value!(r1, v, "C16 waiter did not get the first write's value");
+    assert!(obl.len() == 0, "C16 waiter table not cleared by the write");
+    vwit::cover!(v != v2);
+    std::mem::forget((a, obl));
+});
+
+// ---- full wake-up schedules over the state-passing variant (parking and wake-up in one history)
+h!(c16_st_notify_then_write, {
+    mk_st!(a, task, obl);
+    let mut b = a.clone();
+    let v1: u8 = vwit::any_u8();
+    let w = b.notify_read(vec![1]);
+    let mut w = std::pin::pin!(w);
+    assert!(is_pending!(w));
+    task(&mut obl);
+    assert!(is_pending!(w), "C16 notify_read completed without a value");
+    issue_write!(a, 1, v1);
+    task(&mut obl);
+    expect_value!(w, v1, "C16 lost wake-up: waiter not completed by the write to its key (or wrong value)");
+    assert!(obl.len() == 0, "C16 waiter table not cleared by the write");
+    vwit::cover!(v1 > 3);
+    std::mem::forget((a, b, obl));
+});
+// the race of seeded change C16-4: the write is queued BEHIND the notify_read before the store task runs at all
+h!(c16_st_notify_write_queued, {
+    mk_st!(a, task, obl);
+    let mut b = a.clone();
+    let v1: u8 = vwit::any_u8();
+    let w = b.notify_read(vec![1]);
+    let mut w = std::pin::pin!(w);
+    assert!(is_pending!(w));
+    issue_write!(a, 1, v1);
+    task(&mut obl);
+    expect_value!(w, v1, "C16 lost wake-up: write queued right behind the notify_read");
+    assert!(obl.len() == 0, "C16 waiter table not cleared by the write");
+    vwit::cover!(v1 > 3);
+    std::mem::forget((a, b, obl));
+});
+// NOT IN THE SPEC (measured: timeout at 900 s)
+h!(c16_st_two_waiters_then_write, {
+    mk_st!(a, task, obl);
+    let mut b = a.clone();
+    let mut c = a.clone();
+    let v1: u8 = vwit::any_u8();
+    let w1 = b.notify_read(vec![1]);
+    let mut w1 = std::pin::pin!(w1);
+    let w2 = c.notify_read(vec![1]);
+    let mut w2 = std::pin::pin!(w2);
+    assert!(is_pending!(w1) && is_pending!(w2));
+    task(&mut obl);
+    issue_write!(a, 1, v1);
+    task(&mut obl);
+    expect_value!(w1, v1, "C16 lost wake-up (first waiter)");
+    expect_value!(w2, v1, "C16 lost wake-up (second waiter)");
+    vwit::cover!(v1 > 3);
+    std::mem::forget((a, b, c, obl));
+});
+
 #[kani::proof]
 #[kani::unwind(10)]
 fn dbg_store_min() {
